@@ -138,13 +138,13 @@ theorem strEvs_passes (env : Env) (kw : Kw) (s : String) : passesL (strEvs env k
   rw [← hp, ← hf, nat_min_bridge]
   cases hm : kw.maxLength <;> simp only [not_decide_lt, Bool.not_false, Bool.and_assoc, Bool.true_and]
 
-theorem reqChecks_all (v : J) (kvs : List (String × J)) (ks : List String) :
-    (reqChecks v kvs ks).all (fun c => !c.1) = ks.all (fun k => (lookup k kvs).isSome) := by
+theorem reqChecks_all (env : Env) (p : List (String × S)) (v : J) (kvs : List (String × J)) (ks : List String) :
+    (reqChecks env p v kvs ks).all (fun c => !c.1) = ks.all (reqOK env p kvs) := by
   induction ks with
   | nil => simp [reqChecks]
   | cons k ks ih =>
     simp only [reqChecks, List.map_cons, List.all_cons] at ih ⊢
-    rw [ih]; cases lookup k kvs <;> simp
+    rw [ih]; simp
 
 theorem arrEvs_passes (kw : Kw) (xs : List J) (ch : List Ev) : passesL (arrEvs kw xs ch) = (arrOK kw xs && passesL ch) := by
   simp only [arrEvs, passesL_append, checkEvs_passes, arrChecks, List.all_cons, List.all_nil, Bool.not_not, Bool.and_true]
@@ -154,18 +154,18 @@ theorem arrEvs_passes (kw : Kw) (xs : List J) (ch : List Ev) : passesL (arrEvs k
   rw [hu, nat_min_bridge]
   cases hm : kw.maxItems <;> simp only [not_decide_lt, Bool.not_false, Bool.and_assoc, Bool.true_and]
 
-theorem objEvs_passes (kw : Kw) (kvs : List (String × J)) (ch : List Ev) :
-    passesL (objEvs kw kvs ch) = (objOK kw kvs && passesL ch) := by
+theorem objEvs_passes (env : Env) (kw : Kw) (p : List (String × S)) (kvs : List (String × J)) (ch : List Ev) :
+    passesL (objEvs env kw p kvs ch) = (objOK env kw p kvs && passesL ch) := by
   simp only [objEvs, passesL_append, checkEvs_passes, objChecks, List.all_cons, List.all_nil, Bool.not_not, Bool.and_true,
-    reqChecks_all]
+    reqChecks_all, passesL_chk]
   unfold objOK minPropsBad maxPropsBad
   rw [nat_min_bridge]
   cases hm : kw.maxProps <;> simp only [not_decide_lt, Bool.not_false, Bool.and_assoc, Bool.true_and, Bool.and_true] <;>
     cases kw.permits "object" <;> cases (kw.minProps == 0 || decide (kw.minProps ≤ kvs.length)) <;>
-    cases passesL ch <;> cases (kw.required.all fun k => (lookup k kvs).isSome) <;> simp
+    cases passesL ch <;> cases (kw.required.all (reqOK env p kvs)) <;> cases roBad env p kvs <;> simp
 
-theorem ownEvs_passes (env : Env) (kw : Kw) (v : J) (ch : List Ev) :
-    passesL (ownEvs env kw v ch) = ownOK env kw v (passesL ch) := by
+theorem ownEvs_passes (env : Env) (kw : Kw) (p : List (String × S)) (v : J) (ch : List Ev) :
+    passesL (ownEvs env kw p v ch) = ownOK env kw p v (passesL ch) := by
   cases v with
   | null => simp [ownEvs, ownOK, passesL, Ev.passes]
   | bool b => simp [ownEvs, ownOK, passesL_chk]
@@ -208,15 +208,15 @@ theorem discEvs_passes (kw : Kw) (v : J) : passesL (discEvs kw v) = (discCheck k
   unfold discEvs
   cases discCheck kw v <;> simp [passesL, Ev.passes, DiscRes.pass]
 
-theorem evCombine_passes (env : Env) (kw : Kw) (a b c : List S) (sc : Bool) (v : J)
+theorem evCombine_passes (env : Env) (kw : Kw) (a b c : List S) (p : List (String × S)) (sc : Bool) (v : J)
     (notEvs : List Ev) (oneSubs anySubs allSubs : List (List Ev)) (childEvs : List Ev)
     (rNot rAny rAll rChild : Bool)
     (hNot : passesL notEvs = rNot)
     (hAny : b ≠ [] → rAny = decide (1 ≤ passCount anySubs))
     (hAll : (a = [] → rAll = true) ∧ (a ≠ [] → rAll = (passCount allSubs == allSubs.length)))
     (hChild : passesL childEvs = rChild) :
-    passesL (evCombine env kw a b c sc v notEvs oneSubs anySubs allSubs childEvs) =
-      combine env kw a b c sc v rNot (passCount oneSubs) rAny rAll rChild := by
+    passesL (evCombine env kw a b c p sc v notEvs oneSubs anySubs allSubs childEvs) =
+      combine env kw a b c p sc v rNot (passCount oneSubs) rAny rAll rChild := by
   subst hNot hChild
   unfold evCombine combine
   by_cases h1 : (v.isNull && kw.permitsNull) = true
@@ -545,8 +545,8 @@ theorem checkEvs_located (v : J) (cs : List Check) (h : ∀ c ∈ cs, Loc v c.2.
 
 theorem typeErr_loc (kw : Kw) (v : J) : Loc v (typeErr kw v) := loc_here _ _ _
 
-theorem ownEvs_located (env : Env) (kw : Kw) (v : J) (ch : List Ev) (hch : locatedL v ch) :
-    locatedL v (ownEvs env kw v ch) := by
+theorem ownEvs_located (env : Env) (kw : Kw) (p : List (String × S)) (v : J) (ch : List Ev) (hch : locatedL v ch) :
+    locatedL v (ownEvs env kw p v ch) := by
   cases v with
   | null => simp [ownEvs, locatedL, Ev.located]; exact loc_noValue _ _ rfl rfl
   | bool b => exact chk_located _ _ _ _ (typeErr_loc _ _)
@@ -574,7 +574,8 @@ theorem ownEvs_located (env : Env) (kw : Kw) (v : J) (ch : List Ev) (hch : locat
     simp only [arrChecks, List.mem_cons, List.mem_nil_iff, or_false] at hc
     rcases hc with rfl | rfl | rfl | rfl <;> exact loc_here _ _ _
   | obj kvs =>
-    refine locatedL_append (locatedL_append (checkEvs_located _ _ ?_) hch) (checkEvs_located _ _ ?_)
+    refine locatedL_append (locatedL_append (locatedL_append (checkEvs_located _ _ ?_) hch) (checkEvs_located _ _ ?_))
+      (chk_located _ _ _ _ (loc_noValue _ _ rfl rfl))
     · intro c hc
       simp only [objChecks, List.mem_cons, List.mem_nil_iff, or_false] at hc
       rcases hc with rfl | rfl | rfl <;> exact loc_here _ _ _
@@ -650,10 +651,10 @@ theorem discEvs_located (kw : Kw) (v : J) : locatedL v (discEvs kw v) := by
       | str t => simp at hd
       | arr xs => simp at hd
 
-theorem evCombine_located (env : Env) (kw : Kw) (a b c : List S) (sc : Bool) (v : J)
+theorem evCombine_located (env : Env) (kw : Kw) (a b c : List S) (p : List (String × S)) (sc : Bool) (v : J)
     (notEvs : List Ev) (oneSubs anySubs allSubs : List (List Ev)) (childEvs : List Ev)
     (hNot : locatedL v notEvs) (hch : locatedL v childEvs) :
-    locatedL v (evCombine env kw a b c sc v notEvs oneSubs anySubs allSubs childEvs) := by
+    locatedL v (evCombine env kw a b c p sc v notEvs oneSubs anySubs allSubs childEvs) := by
   unfold evCombine
   split
   · simp [locatedL]
@@ -669,7 +670,7 @@ theorem evCombine_located (env : Env) (kw : Kw) (a b c : List S) (sc : Bool) (v 
       · split <;> simp [locatedL, Ev.located, loc_here]
       · split
         · simp [locatedL]
-        · exact locatedL_append (chk_located _ _ _ _ (loc_here _ _ _)) (ownEvs_located env kw v childEvs hch)
+        · exact locatedL_append (chk_located _ _ _ _ (loc_here _ _ _)) (ownEvs_located env kw p v childEvs hch)
 
 def keysOf : List (String × J) → List String
   | [] => []
@@ -780,7 +781,7 @@ theorem events_located_all (env : Env) :
     intro kw a b c n i p ad v _ _ _ _ ihch hwf
     rw [events.eq_def]
     simp only
-    exact evCombine_located env kw a b c _ v _ _ _ _ _ (notEvs_located env n v) (childEvs_located env kw i p ad v ihch hwf)
+    exact evCombine_located env kw a b c p _ v _ _ _ _ _ (notEvs_located env n v) (childEvs_located env kw i p ad v ihch hwf)
   case pnil => intro p ad has whole all _ _ _; simp [propsEvs, locatedL]
   case pcons =>
     intro p ad has whole k x r ih1 ih2 ih3 all hw hall hwf
